@@ -31,7 +31,7 @@
    by the event trace): WF, H1 (EngineDirty.v), SetsZeroOnHidden, HiddenBlind. *)
 From Coq Require Import List Bool Arith NArith ZArith QArith.
 From TV Require Import Num.Num Gen.BlockGen Model.Block.
-From TV Require Import Model.FiltersBase Gen.FiltersGen Model.ItemFilters Proofs.ItemFiltersBase Proofs.ItemFiltersHidden Model.BlockAlg Proofs.BlockAlgBlind.
+From TV Require Import Model.FiltersBase Gen.FiltersGen Model.ItemFilters Proofs.ItemFiltersBase Proofs.ItemFiltersHiddenBlock Proofs.ItemFiltersHidden Model.BlockAlg Proofs.BlockAlgBlind.
 From TV Require Import Num.QNum Model.Common Model.Leaf Model.Root Proofs.LeafProofs Proofs.HiddenRoot.
 From TV Require Import Model.Engine Model.EngineToy Proofs.EngineMemo Proofs.EngineDirty Proofs.EngineToyProofs
   Proofs.EngineHidden Proofs.EngineBlind Proofs.EngineHiddenToy.
